@@ -66,10 +66,28 @@ RECIPES = None  # set by main() before the workers fork
 FACTS = None
 
 
+_TX = {}
+COPY_EVERY = 1  # the closing sweep copies the scene in every COPY_EVERY-th behaviour (quick tier: 3)
+
+
 def T(x):
     M = np.eye(4)
     M[0, 3] = float(x)
     return M
+
+
+def is_T(M):
+    """M is exactly a translation by an integer along x -> that integer, else None"""
+    if M.shape != (4, 4):
+        return None
+    x0 = float(M[0, 3])
+    if x0 != round(x0):
+        return None
+    x = int(round(x0))
+    ref = _TX.get(x)
+    if ref is None:
+        ref = _TX[x] = T(x)
+    return x if np.array_equal(M, ref) else None
 
 
 def make_pool():
@@ -172,9 +190,9 @@ class Replay:
             e = tf.edge_data.get((u, v)) if (u, v) in tf.edge_data else None
             x = "noedge"
             if e is not None and "matrix" in e:
-                M = np.asarray(e["matrix"], dtype=np.float64)
-                x0 = float(M[0, 3]) if M.shape == (4, 4) else 0.5
-                x = int(round(x0)) if (M.shape == (4, 4) and abs(x0 - round(x0)) < 1e-9 and np.allclose(M, T(round(x0)), atol=1e-9)) else "bad-matrix"
+                x = is_T(np.asarray(e["matrix"], dtype=np.float64))
+                if x is None:
+                    x = "bad-matrix"
             par.add((self.tok(v), self.tok(u), x))
         return {"geo": [(self.tok(k), self.objkey(o, by_content)) for k, o in s.geometry.items()],
                 "nodes": frozenset(self.tok(n) for n in tf.node_data.keys()),
@@ -266,7 +284,7 @@ class Replay:
         for it in as_list(exp["inst"]):
             n = self.real(it["n"])
             M, g = sub.graph.get(n)
-            if not np.allclose(M, T(it["rel"]), atol=1e-9):
+            if is_T(np.asarray(M, dtype=np.float64)) != it["rel"]:
                 return "Subscene(placement)", {"v": e["v"], "node": it["n"], "got": np.asarray(M).tolist(), "exp_dx": it["rel"]}
             if (self.tok(g) if g is not None else "") != it["g"]:
                 return "Subscene(geometry attr)", {"v": e["v"], "node": it["n"], "got": g, "exp": it["g"]}
@@ -443,11 +461,12 @@ def replay_one(trimesh, beh, variant):
             if c is not None:
                 out.append(("viol", c + "[sweep]", None, d))
                 return out, n
-        c, d = R.read_copy(cur)
-        n += 1
-        if c is not None:
-            out.append(("viol", c + "[sweep]", None, d))
-            return out, n
+        if variant % COPY_EVERY == 0:
+            c, d = R.read_copy(cur)
+            n += 1
+            if c is not None:
+                out.append(("viol", c + "[sweep]", None, d))
+                return out, n
         R.scene.strip_visuals()
         k, d = R.diff(R.project(), cur)
         if k:
@@ -462,7 +481,8 @@ def replay_one(trimesh, beh, variant):
 def _replay_chunk(chunk):
     trimesh = import_trimesh()
     res, steps, ops = [], 0, {}
-    for idx, beh in chunk:
+    for idx, raw in chunk:
+        beh = json.loads(raw)
         out, n = replay_one(trimesh, beh, idx + seed())
         steps += n
         for e in beh["h"]:
@@ -508,8 +528,9 @@ def selftest(job):
 
 
 def main(argv):
-    global RECIPES, FACTS
+    global RECIPES, FACTS, COPY_EVERY
     tier = tier_from_args(argv)
+    COPY_EVERY = 3 if tier == "quick" else 1
     V = Verdict(PROP, tier)
     trimesh = import_trimesh()
     quick = tier == "quick"
@@ -545,6 +566,7 @@ def main(argv):
             "ListingFresh", "BoundsAgree"]
     asb = ("AsBuiltDupNeedsPath",)
     wide = dict(objs="Objs5", gn="NamesAN", nn="NamesAN", lists="Lists2", rec="Rec1234", ops="OpsAll", pm="all")
+    core = dict(objs="Objs1", gn="NamesA", nn="NamesA", lists="Lists0", dicts="Dicts0", rec="Rec0", ops="OpsCore", depth=4)
     mcs, emits = [], []
     # 1. model checking: the stated behaviour (no deviation, no mutant) satisfies every clause ...
     if quick:
@@ -557,15 +579,17 @@ def main(argv):
     # 2. behaviours of the as-built machine
     if quick:
         emits.append(("all histories depth=3", dict(depth=3), None))
+        emits.append(("all histories depth=4 one object core ops", core, None))
         emits.append(("simulate wide", dict(depth=8, **wide), 10))
     else:
         emits.append(("all histories depth=3", dict(depth=3), None))
-        emits.append(("all histories depth=3 all objects", dict(objs="Objs5", gn="NamesAN", nn="NamesAN", lists="Lists0", dicts="Dicts0",
-                                                               rec="Rec0", ops="OpsCore", depth=3), None))
-        emits.append(("all histories depth=4 one object", dict(objs="Objs1", gn="NamesA", nn="NamesA", lists="Lists0", dicts="Dicts0",
-                                                              rec="Rec13", ops="OpsMut", depth=4), None))
+        emits.append(("all histories depth=3 all objects core ops", dict(objs="Objs5", gn="NamesA", nn="NamesN", lists="Lists0", dicts="Dicts0",
+                                                                        rec="Rec0", ops="OpsCore", depth=3), None))
+        emits.append(("all histories depth=4 no explicit node names", dict(objs="Objs2", gn="NamesA", nn="Names0", lists="Lists0", dicts="Dicts0",
+                                                                          rec="Rec13", ops="OpsMut", depth=4), None))
+        emits.append(("all histories depth=4 one object core ops", core, None))
         for j in range(6):
-            emits.append((f"simulate wide #{j}", dict(depth=6 + j, **wide), 120))
+            emits.append((f"simulate wide #{j}", dict(depth=6 + j, **wide), 40))
 
     def run_mc(job):
         k, (name, c, workers) = job
@@ -606,22 +630,15 @@ def main(argv):
                 note(f"selftest {flag}->{clause}", rr)
             else:
                 note("emit " + name, rr)
-                got = [b for b in rr.printed if isinstance(b, dict) and "h" in b]
+                # keep the behaviours as compact strings (a parsed behaviour costs ~10x the memory)
+                got = [json.dumps(b, separators=(",", ":")) for b in rr.printed if isinstance(b, dict) and "h" in b]
                 counts[name] = len(got)
                 if len(got) < 100:
                     raise MachineryError(f"emission '{name}' too small: {len(got)}")
                 behs += got
                 rr.printed = rr.stdout = None
     cov["spec_selftests"] = st
-    # simulated leaves repeat; replay each distinct behaviour once
-    seen, uniq = set(), []
-    for b in behs:
-        key = json.dumps(b["h"], sort_keys=True)
-        if key not in seen:
-            seen.add(key)
-            uniq.append(b)
-    behs = uniq
-    del seen
+    behs = sorted(set(behs))        # leaves of different simulated traces may coincide
 
     # 3. replay
     t0 = time.time()
@@ -644,7 +661,7 @@ def main(argv):
             "subscene", "copy", "strip"}
     if n_beh < 1000 or not need <= set(ops):
         raise MachineryError(f"replay too small: {n_beh} behaviours, ops {sorted(ops)}")
-    sample = [short(behs[i]["h"]) for i in (0, len(behs) // 2, len(behs) - 1)]
+    sample = [short(json.loads(behs[i])["h"]) for i in (0, len(behs) // 2, len(behs) - 1)]
     cov.update({
         "states": states, "transitions": trans,
         "traces_validated_against_impl": n_beh,
